@@ -56,6 +56,25 @@ Definition ray_check (c : cyld) (s n : v3d) (L : dy) : string :=
   | _, _ => "model-nonfinite"
   end.
 
+(* Rays on which every comparison of the implementation (direction parallel to the end faces? start between the
+   two planes? direction parallel to the axis? start within the radius? discriminant >= 0?) is decided alike in
+   floating point and in exact arithmetic -- the compared dot products are evaluated exactly or are far from their
+   thresholds; the case generator establishes that per ray (props/C18.py, decisions_robust) -- and |n.a|, |n x a|
+   are 0 or >= 0.3: the observed length must be the value of the exact model for the solid AS GIVEN, no bracket.
+   The solid is closed: a ray that starts exactly in an end-face plane and runs exactly perpendicular to the axis
+   has the chord of the disk as its path length, a ray along the lateral surface the remaining height
+   (the bracket above accepts anything between 0 and that value for such rays). *)
+Definition ray_check_exact (c : cyld) (s n : v3d) (L : dy) : string :=
+  let cy := cq c in
+  let sv := vq s in
+  let nv := vq n in
+  let bn := qnorm (vminus QO (cy_base cy) sv) in
+  let tol := e10 12 * qmax (cy_r cy) (cy_h cy) + e10 13 * bn in
+  match beam_intersection QO cy sv nv with
+  | Fin m => if Qle_bool (Qabs (dyQ L - m)) tol then "" else "path-length-closed-solid"
+  | _ => "model-nonfinite"
+  end.
+
 (* ---------------------------------------------------------------- the exact inside test *)
 Definition inside_all (c : cyld) (tolk : Z) (pts : list v3d) : string :=
   let tol := dmul (dpow10 tolk) (dmax (cd_r c) (cd_h c)) in
@@ -231,6 +250,7 @@ Definition table_check (what : string) (kind k : Z) : string :=
 
 Inductive ccase :=
 | CRay (c : cyld) (s n : v3d) (L : dy)
+| CRayX (c : cyld) (s n : v3d) (L : dy)
 | CInside (c : cyld) (tolk : Z) (pts : list v3d)
 | CWeights (c : cyld) (kind k : Z) (ws : list dy)
 | CQuad (c : cyld) (kind k : Z) (obs : list (Z * v3d * dy))
@@ -242,6 +262,7 @@ Inductive ccase :=
 Definition check (c : ccase) : string :=
   match c with
   | CRay c s n L => ray_check c s n L
+  | CRayX c s n L => ray_check_exact c s n L
   | CInside c tk pts => inside_all c tk pts
   | CWeights c kind k ws => weights_check c kind k ws
   | CQuad c kind k obs => quad_check c kind k obs
